@@ -4,8 +4,14 @@ import Zc.Gen.Name
 /-! # Model of `_utils/name.py: service_type_name` and of the `ServiceInfo` constructor's
 name/type test (`_services/info.py:183-184`).  No Mathlib.
 
-A Python `str` is a `List Char` (a sequence of Unicode scalar values; lone surrogates,
-which a Python `str` can also hold, are outside the model -- see notes/agents/C19.md).
+A Python `str` is a `List Char` (a sequence of Unicode scalar values).  Lone surrogates, which a
+Python `str` can also hold, are outside the model: the code's `try: … .encode('utf-8') except
+UnicodeEncodeError: raise BadTypeInNameException` (name.py:155-158, repair b0b9659) therefore has no
+counterpart here (`checkInst` cannot fail to encode); that branch is exercised only by the harness's
+surrogate streams (stage O).
+
+Flags of `re.compile` are folded by the translator into the pattern text as Python's inline group
+`(?i…)`, which `parsePat` rejects (fail closed): the interpreter below is for flag-free patterns only.
 
 The four compiled regular expressions of `const.py` are *interpreted*: the translator
 copies the pattern texts into `Zc.Gen.*Pattern`, `parsePat` reads the small subset they
